@@ -403,7 +403,10 @@ func TestReplay(t *testing.T) {
 	}
 	s := findScenario(chk, r.Tier, r.Scenario)
 	if s == nil {
-		t.Fatalf("scenario %s not found", r.Scenario)
+		// a grid case without a dedicated replayer: the case description identifies the input; the
+		// property's check re-evaluates it (grids are enumerated completely on every run)
+		fmt.Printf("grid case of %s: %s\nre-run ./run.sh %s %s to re-evaluate the whole grid\n", r.Property, string(r.Case), r.Property, r.Tier)
+		return
 	}
 	hh := h.ReplayScenario(t, s, r.Choices, 1<<30)
 	for _, l := range hh.Trace {
